@@ -25,7 +25,7 @@ from sim.simfs import SimFS, mounted
 
 PROPERTY = "C08"
 LEVEL = "exploration"
-RUNS = {"quick": 30000, "thorough": 800000}
+RUNS = {"quick": 80000, "thorough": 1500000}
 WALL = {"quick": 240, "thorough": 1500}
 PARTITIONS = [{"name": "default", "env": {}}]
 FAULT_KINDS = ["io_open_fail", "io_enospc_midwrite", "io_eio_close", "io_eio_read", "io_short_read", "overwrite",
